@@ -3,6 +3,7 @@ import MpireModel.Drive.Worker
 import MpireModel.Drive.Proto
 import MpireModel.Drive.Dispatch
 import MpireModel.Drive.Misc
+import MpireModel.Drive.Apply
 /- One line in, one line out. -/
 namespace Mpire.Drive
 
@@ -35,6 +36,7 @@ def handle (line : String) : String :=
       | "hist"    => handleHist fs
       | "handover" => handleHandover fs
       | "kill"    => handleKill fs
+      | "aproto"  => handleAProto fs
       | _ => none
     r.getD "bad-op"
 
